@@ -43,21 +43,24 @@ Proof. intros g ts tr st H G. apply (clean_ok_run g tr _ _ (clean_ok_init ts) G 
 
 (* the guard is exact: a registration after a completed clean violates the statement at once *)
 Theorem late_store_breaks : forall g st k cl c i cn st',
+  fix_store g = false ->
   nth_error (callers st) k = Some cl -> pc cl = CAlloc c i -> nth_error (conns st) c = Some cn ->
   kcleaned cn = true -> step g st (LStore k) = Some st' ->
   exists cn', nth_error (conns st') c = Some cn' /\ kcleaned cn' = true /\ ktab cn' <> [].
 Proof.
-  intros g st k cl c i cn st' Hk Hpc Hc Hcl H. cbn [step] in H. rewrite Hk, Hpc, Hc in H.
+  intros g st k cl c i cn st' Hfix Hk Hpc Hc Hcl H. cbn [step] in H. rewrite Hk, Hpc, Hc, Hfix in H. cbn [andb] in H.
   inversion H; subst st'. proj_simpl. rewrite nth_upd, Nat.eqb_refl, Hc.
   eexists. split; [reflexivity|]. proj_simpl. split; [exact Hcl|]. unfold a_set. discriminate.
 Qed.
 
-Definition g31 : cfg := {| mask := mask31 |}.
-Definition g15 : cfg := {| mask := mask15 |}.
+Definition g31 : cfg := {| mask := mask31; fix_cancel := true; fix_store := true |}.
+Definition g15 : cfg := {| mask := mask15; fix_cancel := true; fix_store := true |}.
+(* the transports before 576bf91 and 8ffdf9e *)
+Definition g31_old : cfg := {| mask := mask31; fix_cancel := false; fix_store := false |}.
 
-(* C10_prompt_on_close_refuted *)
-Theorem prompt_on_close_refuted :
-  exists st, run g31 (init [false]) late_store_witness = Some st /\
+(* C10_prompt_on_close_old_refuted *)
+Theorem prompt_on_close_old_refuted :
+  exists st, run g31_old (init [false]) late_store_witness = Some st /\
     (exists cn, nth_error (conns st) 0 = Some cn /\ kcleaned cn = true /\ ksock cn = true /\ ktab cn = [(1, 0%nat)]) /\
     stuck_b st 0 = true.
 Proof.
@@ -85,7 +88,7 @@ Proof.
   all: try (destruct Ht as [Ht|Ht]; try discriminate Ht; try (inversion Ht; fail);
             match goal with E : nth_error (conns _) _ = Some ?cn |- _ =>
               first [ apply (w_ctx _ I _ _ E); first [left; congruence | right; congruence] ] end; fail).
-  all: try (apply orb_true_r).
+  all: destruct (fix_cancel g); cbn [orb]; try (apply orb_true_r).
   all: rewrite orb_false_r.
   all: try (destruct Ht as [Ht|Ht]; try discriminate Ht; try (inversion Ht; fail);
             match goal with E : nth_error (conns _) _ = Some ?cn |- _ =>
@@ -552,10 +555,10 @@ Qed.
    deadline, is parked in its select; and whatever the goroutines of the client and the peer do
    from then on, as long as nobody cancels the call from outside (LUserCancel, Client.Abort), it
    stays there: same program point, empty channel, context not done *)
-Theorem no_stuck_caller_refuted :
-  exists st, run g31 (init [false]) late_store_witness = Some st /\
+Theorem no_stuck_caller_old_refuted :
+  exists st, run g31_old (init [false]) late_store_witness = Some st /\
     nth_error (callers st) 0 = Some parked /\
-    forall tr st', forallb (fun l => negb (outside_cancel l)) tr = true -> run g31 st tr = Some st' ->
+    forall tr st', forallb (fun l => negb (outside_cancel l)) tr = true -> run g31_old st tr = Some st' ->
       nth_error (callers st') 0 = Some parked.
 Proof.
   eexists. split; [vm_compute; reflexivity|]. split; [reflexivity|].
@@ -598,10 +601,10 @@ Qed.
 (* C10_threads_exit_refuted: one call that succeeds, then Client.Abort: the connection is closed,
    its table is empty, Receive has gone, every call has returned -- and the Send goroutine of the
    closed connection is still parked in its select, and stays there whatever happens afterwards *)
-Theorem threads_exit_refuted :
-  exists st, run g31 (init [false]) abort_leak_witness = Some st /\
+Theorem threads_exit_old_refuted :
+  exists st, run g31_old (init [false]) abort_leak_witness = Some st /\
     all_done st = true /\ pending_total st = 0%nat /\ sender_parked_forever st 0 = true /\
-    forall tr st', run g31 st tr = Some st' ->
+    forall tr st', run g31_old st tr = Some st' ->
       exists cn, nth_error (conns st') 0 = Some cn /\ ksender cn = SIdle /\ ksock cn = true.
 Proof.
   eexists. split; [vm_compute; reflexivity|]. split; [reflexivity|]. split; [reflexivity|]. split; [reflexivity|].
@@ -644,7 +647,7 @@ Proof.
     all: try discriminate.
     all: try reflexivity.
     all: try (rewrite A in *; match goal with En : nth_error [] ?j = Some _ |- _ => destruct j; discriminate En end).
-    all: try (apply orb_true_r).
+    all: destruct (fix_cancel g); cbn [orb]; try (apply orb_true_r).
     all: rewrite orb_false_r; apply (C _ _ E1); destruct (kunpooled c0) eqn:U; [reflexivity|];
          exfalso; pose proof (P _ _ E1 U); congruence.
 Qed.
